@@ -754,7 +754,19 @@ fn writable(j: &PJ) -> bool {
 		if is_class != n.ends_with(".class") || n.is_empty() { return false; }
 		if matches!(e.content, JarEntryEnum::Dir) != n.ends_with('/') { return false; }
 	}
-	match (reopen(clone_jar(j)), expected_reopen(j)) { (Ok(a), Ok(b)) => a == b, _ => false }
+	// every class can be written by duke and read back with the same declarations. This is decided with duke's class
+	// writer / reader alone (the subject of C02 / C01), NOT by sending the jar through the jar and zip code under test:
+	// a zip layer that loses or reclassifies an entry must stay INSIDE the domain (DESIGN 11.1c (ii); seed C07-J)
+	for e in j.entries.values() {
+		if let JarEntryEnum::Class(c) = &e.content {
+			let Ok(c) = c.clone().read() else { return false };
+			let mut bytes = Vec::new();
+			if duke::write_class(&mut bytes, &c).is_err() { return false; }
+			let Ok(c2) = duke::read_class(&mut std::io::Cursor::new(bytes)) else { return false };
+			if header_refs(&project(&c2)) != header_refs(&project(&c)) { return false; }
+		}
+	}
+	true
 }
 
 // ------------------------------------------------------------------ generation of request lines
@@ -832,7 +844,9 @@ fn gen_jar(r: &mut Rng, files: &[String]) -> Vec<Ent> {
 	for _ in 0..r.range(1, 4) {
 		match r.below(9) {
 			0 => es.push(Ent { name: (*r.pick(&["a/", "a/b/", "META-INF/"])).to_owned(), kind: EntK::Dir }),
-			1 => es.push(Ent { name: (*r.pick(&["META-INF/MANIFEST.MF", "x.txt", "a/A.clas", "a/A.class.txt", "assets/é.png"])).to_owned(), kind: EntK::Other(vec![1, 2, r.below(250) as u8]) }),
+			// "empty" is a value like any other (DESIGN 11.1c (vi)): a third of the plain files have no content at all (marker files such as `.keep`)
+			1 => es.push(Ent { name: (*r.pick(&["META-INF/MANIFEST.MF", "x.txt", "a/A.clas", "a/A.class.txt", "assets/é.png", "assets/demo/.keep", "empty"])).to_owned(),
+				kind: EntK::Other(if r.chance(1, 3) { vec![] } else { vec![1, 2, r.below(250) as u8] }) }),
 			2 => es.push(Ent { name: (*r.pick(&["a/A.class", "weird.class", ".class"])).to_owned(), kind: EntK::Other(vec![0xca, 0xfe]) }),   // not a class as far as the jar is concerned
 			3 if !files.is_empty() => {
 				let f = r.pick(files).clone();
@@ -1051,6 +1065,13 @@ fn exec(op: &str, args: &[Sexp]) -> Ans {
 				let w = tr!(w.as_bool());
 				if w != writable(&pj) { return Ans::Skip("writable flag differs".into()); }
 				if !w { return Ans::out_of_domain(); }
+				// the input jar itself survives `to_mem` and re-opening: same entry names in the same order, directories stay
+				// directories, every other file keeps its bytes (the empty file included), classes keep their declarations
+				match (reopen(clone_jar(&pj)), expected_reopen(&pj)) {
+					(Ok(a), Ok(b)) => if a != b { return Ans::fail("input-reopen-differs"); },
+					(Err(e), _) => return Ans::fail(&format!("input-reopen-{}", e.split(':').next().unwrap_or("x"))),
+					(_, Err(_)) => return Ans::out_of_domain(),
+				}
 			}
 			let res = dukebox::remap::remap(pj, ByRef(&b));
 			match op {
